@@ -212,6 +212,16 @@ Section Dated.
     destruct (dated l) as [t|]; [|discriminate]. intros _. exists t. auto.
   Qed.
 
+  (* the concatenated groups are the file from its first dated line *)
+  Lemma groups_concat ls :
+    concat (fst (groups dated ls)) ++ concat (map group_bytes (snd (groups dated ls))) = concat ls.
+  Proof.
+    induction ls as [|l r IH]; [reflexivity|].
+    rewrite groups_cons. destruct (dated l); cbn [fst snd map concat app].
+    - unfold group_bytes at 1. cbn [snd concat]. rewrite <- IH. rewrite <- app_assoc. reflexivity.
+    - rewrite <- IH. rewrite <- app_assoc. reflexivity.
+  Qed.
+
   (* ---------------------------------------------------------------- loop B *)
 
   Lemma loop_b_ok bs : 0 < bs -> forall after before fuel acc,
@@ -632,7 +642,7 @@ Section Dated.
       assert (BB : b = lenN (concat before) + lenN l').
       { subst b. rewrite concat_app_len. cbn [concat]. rewrite app_nil_r. reflexivity. }
       assert (BE : b + lenN l <= E).
-      { subst E b. rewrite concat_app_len. cbn [concat]. rewrite lenN_app. lia. }
+      { subst E b. rewrite (concat_app_len (before ++ [l']) (l :: q)). cbn [concat]. rewrite lenN_app. lia. }
       destruct (dated l) as [t|] eqn:D.
       + rewrite (last_dated_dated_end _ l t ld LD D). rewrite LR3.
         exists ln. fold b. split; [do 2 f_equal; lia|]. unfold line_repr. auto.
@@ -658,7 +668,8 @@ Section Dated.
             intro NE. apply C. destruct before; discriminate. }
           subst before. cbn [app] in *.
           pose proof (loop_a_zero bs H l' (l :: q) after fuel E W' ltac:(cbn in FU; lia) UQ') as Z0.
-          cbv zeta in Z0. rewrite F' in Z0. specialize (Z0 (eq_sym E')).
+          cbv zeta in Z0. change (concat (l' :: (l :: q) ++ after)) with f in Z0.
+          specialize (Z0 (eq_sym E')).
           destruct (dated l') as [t|] eqn:D'.
           -- rewrite (last_dated_dated_end [] l' t ld LD D').
              destruct Z0 as (ln0 & R0 & LR0). exists ln0. cbn [concat].
@@ -667,11 +678,268 @@ Section Dated.
              exact Z0.
   Qed.
 
-  (* ---------------------------------------------------------------- observations *)
+  (* ---------------------------------------------------------------- find_sysline, any offset *)
 
-  (* what the printer receives of a Sysline: its instant and the bytes of its lines *)
+  Lemma last_dated_total ls : exists r, last_dated ls r.
+  Proof.
+    induction ls as [|l ls IH] using rev_ind.
+    - exists None. constructor. intros u [].
+    - destruct (dated l) as [t|] eqn:D.
+      + exists (Some (ls, t, l)). apply (LD_some ls l t []); [exact D|intros u []].
+      + destruct IH as (r & LD). destruct LD as [ls U|p d t q DD U].
+        * exists None. constructor. intros u I0. apply in_app_or in I0 as [I0|[<-|[]]]; auto.
+        * exists (Some (p, t, d)). rewrite <- app_assoc. cbn [app].
+          apply (LD_some p d t (q ++ [l])); [exact DD|].
+          intros u I0. apply in_app_or in I0 as [I0|[<-|[]]]; auto.
+  Qed.
+
+  Lemma last_dated_shape ls p t d : last_dated ls (Some (p, t, d)) ->
+    exists q, ls = p ++ d :: q /\ dated d = Some t /\ (forall u, In u q -> dated u = None).
+  Proof. intro LD. inversion LD; subst. eauto. Qed.
+
+  Lemma last_dated_none ls : last_dated ls None -> forall u, In u ls -> dated u = None.
+  Proof. intro LD. inversion LD; subst. assumption. Qed.
+
+  Lemma groups_undated_app q r : (forall u, In u q -> dated u = None) ->
+    groups dated (q ++ r) = (q ++ fst (groups dated r), snd (groups dated r)).
+  Proof.
+    induction q as [|x q IH]; intro U.
+    - cbn [app]. destruct (groups dated r); reflexivity.
+    - cbn [app]. rewrite groups_cons, (U x) by (left; reflexivity).
+      rewrite IH by (intros u I0; apply U; right; exact I0). reflexivity.
+  Qed.
+
+  Lemma groups_app_dated p r : fst (groups dated r) = [] ->
+    groups dated (p ++ r) = (fst (groups dated p), snd (groups dated p) ++ snd (groups dated r)).
+  Proof.
+    intro F. induction p as [|x p IH].
+    - cbn [app groups fst snd]. destruct (groups dated r) as [u gs]. cbn in F. subst u. reflexivity.
+    - cbn [app]. rewrite !groups_cons, IH. cbn [fst snd].
+      destruct (dated x); [|reflexivity]. cbn [fst snd app].
+      (* the undated lines that trail the last group of p stay with it: p's own tail *)
+      reflexivity.
+  Qed.
+
+  Lemma locate ls fo : wf_lines ls -> fo < lenN (concat ls) ->
+    exists before l after, ls = before ++ l :: after /\
+      lenN (concat before) <= fo /\ fo < lenN (concat before) + lenN l.
+  Proof.
+    revert fo; induction ls as [|x ls IH]; intros fo W L; [cbn in L; lia|].
+    cbn [concat] in L. rewrite lenN_app in L.
+    destruct (N.lt_ge_cases fo (lenN x)) as [C|C].
+    - exists [], x, ls. cbn. repeat split; lia.
+    - destruct W as (_ & _ & _ & W).
+      destruct (IH (fo - lenN x) W ltac:(lia)) as (b & l & a & E1 & E2 & E3).
+      exists (x :: b), l, a. subst ls. cbn [app concat]. rewrite lenN_app. repeat split; lia.
+  Qed.
+
+  (* loop B after a successful loop A *)
+  Lemma finish_sysline bs : 0 < bs -> forall after before fuel ra,
+    wf_lines (before ++ after) ->
+    (length after < fuel)%nat ->
+    let f := concat (before ++ after) in
+    let fo1 := lenN (concat before) in
+    loop_a_spec bs f fo1 after ra ->
+    find_sysline_spec bs f fo1 after
+      (match ra with
+       | Found (dt, ln, fo1') =>
+           match loop_b dated fuel bs f fo1' [ln] with
+           | Found (fo_b, lns) => Found (fo_b, (dt, lns))
+           | Done => Done | OutOfFuel => OutOfFuel | Panic => Panic
+           end
+       | Done => Done | OutOfFuel => OutOfFuel | Panic => Panic
+       end).
+  Proof.
+    intros H after before fuel ra W FU f fo LA.
+    unfold find_sysline_spec. unfold loop_a_spec in LA.
+    destruct (snd (groups dated after)) as [|[t gl] gs] eqn:G.
+    - rewrite LA. reflexivity.
+    - destruct LA as (l & ln & HD & RA & LR). cbv zeta in RA, LR. rewrite RA.
+      destruct (groups_decomp after t gl gs G) as (l0 & r & E1 & E2 & E3 & E4).
+      subst gl. cbn in HD. inversion HD; subst l0. clear HD.
+      set (u := fst (groups dated after)) in *.
+      assert (EA : before ++ after = (before ++ u ++ [l]) ++ r).
+      { rewrite E1. rewrite <- !app_assoc. reflexivity. }
+      pose proof (loop_b_ok bs H r (before ++ u ++ [l]) fuel [ln]) as LB.
+      rewrite <- EA in LB. specialize (LB W).
+      assert (FU2 : (length r < fuel)%nat).
+      { rewrite E1 in FU. rewrite app_length in FU. cbn [length] in FU. lia. }
+      specialize (LB FU2). cbv zeta in LB. fold f in LB.
+      assert (P : lenN (concat (before ++ u ++ [l])) = fo + lenN (concat u) + lenN l).
+      { rewrite !concat_app_len. cbn [concat]. rewrite app_nil_r. subst fo. lia. }
+      rewrite P in LB. destruct LB as (lns & RB & LRB). rewrite RB.
+      exists (t, [ln] ++ lns). cbv zeta. unfold group_bytes. cbn [snd concat]. rewrite lenN_app.
+      split; [do 2 f_equal; lia|].
+      unfold sysline_repr. cbn [fst snd]. split; [reflexivity|].
+      cbn [app lines_repr]. split; [exact LR|exact LRB].
+  Qed.
+
+  (* spec side: picking a group by offset *)
+  Definition total (gs : list group) : N := lenN (concat (map group_bytes gs)).
+
+  Lemma pick_group_skip fo o a g c :
+    o + total a <= fo -> fo < o + total a + lenN (group_bytes g) ->
+    pick_group fo (with_offsets o (a ++ g :: c)) =
+    Some (o + total a + lenN (group_bytes g), o + total a, g).
+  Proof.
+    revert o; induction a as [|x a IH]; intros o L1 L2.
+    - unfold total in *. cbn [map concat app with_offsets pick_group] in *.
+      replace (o + lenN (@nil N)) with o in * by (cbn; lia).
+      destruct (N.ltb_spec fo (o + lenN (group_bytes g))); [reflexivity|lia].
+    - unfold total in *. cbn [map concat app with_offsets pick_group] in *. rewrite lenN_app in *.
+      destruct (N.ltb_spec fo (o + lenN (group_bytes x))); [lia|].
+      rewrite IH by lia. do 3 f_equal; lia.
+  Qed.
+
+  Lemma pick_group_first fo o g c : fo < o + lenN (group_bytes g) ->
+    pick_group fo (with_offsets o (g :: c)) = Some (o + lenN (group_bytes g), o, g).
+  Proof.
+    intro L. cbn [with_offsets pick_group].
+    destruct (N.ltb_spec fo (o + lenN (group_bytes g))); [reflexivity|lia].
+  Qed.
+
+  Lemma pick_group_none fo o gs : o + total gs <= fo -> pick_group fo (with_offsets o gs) = None.
+  Proof.
+    revert o; induction gs as [|x gs IH]; intros o L; [reflexivity|].
+    unfold total in *. cbn [map concat with_offsets pick_group] in *. rewrite lenN_app in L.
+    destruct (N.ltb_spec fo (o + lenN (group_bytes x))); [lia|]. apply IH. lia.
+  Qed.
+
+  Lemma groups_total ls :
+    lenN (concat (fst (groups dated ls))) + total (snd (groups dated ls)) = lenN (concat ls).
+  Proof. unfold total. rewrite <- lenN_app, groups_concat. reflexivity. Qed.
+
+  (* what the caller observes of find_sysline *)
   Definition obs_sysline (bs : N) (f : file) (sl : sysline) : group :=
     (fst sl, map (bytes_of bs f) (snd sl)).
+
+  Definition obs_find_sysline (bs : N) (f : file) (r : res (N * sysline)) : option (N * N * group) :=
+    match r with
+    | Found (fo_next, sl) =>
+        match sysline_fo_begin bs sl with
+        | Some b => Some (fo_next, b, obs_sysline bs f sl)
+        | None => None
+        end
+    | _ => None
+    end.
+
+  Lemma sysline_repr_obs bs f sl b g n : sysline_repr bs f sl b g -> snd g <> [] ->
+    obs_find_sysline bs f (Found (n, sl)) = Some (n, b, g).
+  Proof.
+    intros (R1 & R2) NE. unfold obs_find_sysline, sysline_fo_begin, obs_sysline.
+    rewrite (lines_repr_bytes _ _ _ _ _ R2), R1.
+    destruct (snd sl) as [|ln lns]; destruct (snd g) as [|l ls] eqn:G; cbn in R2; try contradiction; try congruence.
+    destruct R2 as ((_ & B & _) & _). rewrite B. destruct g as [t gl]. cbn in G. subst gl. reflexivity.
+  Qed.
+
+  Theorem find_sysline_correct bs (f : file) fo : 0 < bs ->
+    obs_find_sysline bs f (find_sysline_m dated bs f fo) = spec_find_sysline dated f fo.
+  Proof.
+    intro H. unfold spec_find_sysline, syslines_at, first_dated_offset, leading, syslines.
+    pose proof (lines_wf f) as W. pose proof (lines_concat f) as CF.
+    pose proof (groups_total (lines f)) as GT. rewrite CF in GT.
+    destruct (N.lt_ge_cases fo (lenN f)) as [L|L].
+    2:{ (* past the end *)
+      rewrite pick_group_none by lia.
+      unfold find_sysline_m, find_sysline_fuel.
+      replace (2 * length f + 3)%nat with (S (2 * length f + 2)) by lia. cbn [loop_a].
+      rewrite find_line_done by exact L. reflexivity. }
+    rewrite <- CF in L. destruct (locate (lines f) fo W L) as (before & l & after & E & L1 & L2).
+    unfold find_sysline_m, find_sysline_fuel.
+    set (fuel := (2 * length f + 3)%nat).
+    assert (LEN : (length (lines f) <= length f)%nat).
+    { pose proof (wf_lines_len _ W). rewrite CF in H0. exact H0. }
+    assert (PL : 0 < lenN l).
+    { apply (wf_lines_pos _ W). rewrite E. apply in_or_app. right. left. reflexivity. }
+    (* loop A *)
+    pose proof (loop_a_bwd bs H before l [] after fuel fo 0) as LA. cbn [app] in LA.
+    rewrite <- E in LA. specialize (LA W ltac:(intros u []%In_nil || (intros u [])) ).
+    assert (FU : (length before + length after + 3 < fuel)%nat).
+    { subst fuel. rewrite E in LEN. rewrite app_length in LEN. cbn [length] in LEN. lia. }
+    specialize (LA FU). cbv zeta in LA. rewrite CF in LA.
+    specialize (LA L1 L2).
+    assert (ME : N.max 0 (lenN (concat before) + lenN l) = lenN (concat (before ++ [l]))).
+    { rewrite concat_app_len. cbn [concat]. rewrite app_nil_r. lia. }
+    specialize (LA ME).
+    destruct (last_dated_total (before ++ [l])) as (ld & LD). specialize (LA ld LD).
+    set (E1 := lenN (concat (before ++ [l]))) in *.
+    assert (EE1 : E1 = lenN (concat before) + lenN l).
+    { subst E1. rewrite concat_app_len. cbn [concat]. rewrite app_nil_r. reflexivity. }
+    assert (SPLIT : lines f = (before ++ [l]) ++ after) by (rewrite E, <- app_assoc; reflexivity).
+    destruct ld as [[[p t] d]|].
+    - (* a dated line at or before the line of fo: its group *)
+      destruct LA as (ln & RA & LR). rewrite RA.
+      destruct (last_dated_shape _ _ _ _ LD) as (q & EQ & DD & UQ).
+      set (rest := q ++ after).
+      assert (SP2 : lines f = (p ++ [d]) ++ rest).
+      { rewrite SPLIT, EQ. subst rest. rewrite <- !app_assoc. reflexivity. }
+      pose proof (loop_b_ok bs H rest (p ++ [d]) fuel [ln]) as LB. rewrite <- SP2 in LB.
+      specialize (LB W).
+      assert (FU2 : (length rest < fuel)%nat).
+      { subst fuel. rewrite SP2 in LEN. rewrite app_length in LEN. lia. }
+      specialize (LB FU2). cbv zeta in LB. rewrite CF in LB.
+      assert (P : lenN (concat (p ++ [d])) = lenN (concat p) + lenN d).
+      { rewrite concat_app_len. cbn [concat]. rewrite app_nil_r. reflexivity. }
+      rewrite P in LB. destruct LB as (lns & RB & LRB). rewrite RB.
+      set (s := lenN (concat p)) in *.
+      set (g := (t, d :: fst (groups dated rest)) : group).
+      assert (GR : groups dated (lines f) =
+                   (fst (groups dated p), snd (groups dated p) ++ g :: snd (groups dated rest))).
+      { rewrite SP2, <- app_assoc. cbn [app]. rewrite (groups_app_dated p (d :: rest)).
+        - rewrite groups_cons, DD. reflexivity.
+        - rewrite groups_cons, DD. reflexivity. }
+      rewrite GR in *. cbn [fst snd] in *.
+      pose proof (groups_total p) as GP. fold s in GP.
+      assert (UB : fst (groups dated rest) = q ++ fst (groups dated after)).
+      { subst rest. rewrite groups_undated_app by exact UQ. reflexivity. }
+      assert (BQ : E1 = s + lenN d + lenN (concat q)).
+      { subst E1. rewrite EQ. rewrite concat_app_len. cbn [concat]. rewrite lenN_app. subst s. lia. }
+      assert (GB : lenN (group_bytes g) = lenN d + lenN (concat (fst (groups dated rest)))).
+      { subst g. unfold group_bytes. cbn [snd concat]. rewrite lenN_app. reflexivity. }
+      assert (SB : s <= lenN (concat before)).
+      { assert (lenN (concat before) + lenN l = s + lenN d + lenN (concat q)) by lia.
+        destruct q as [|x q _] using rev_ind.
+        - apply app_inj_tail in EQ as [EQ1 EQ2]. subst. lia.
+        - rewrite app_comm_cons, app_assoc in EQ. apply app_inj_tail in EQ as [EQ1 EQ2]. subst.
+          rewrite concat_app_len. cbn [concat]. rewrite lenN_app. subst s. lia. }
+      rewrite (pick_group_skip fo _ (snd (groups dated p)) g (snd (groups dated rest))).
+      + rewrite GP, GB, N.add_assoc.
+        apply sysline_repr_obs; [|subst g; discriminate].
+        unfold sysline_repr. cbn [fst snd]. split; [reflexivity|].
+        cbn [app lines_repr]. split; [exact LR|exact LRB].
+      + rewrite GP. lia.
+      + rewrite GP, GB, UB, concat_app_len. lia.
+    - (* no dated line at or before fo: the first group after it, if any *)
+      pose proof (last_dated_none _ LD) as UN.
+      pose proof (finish_sysline bs H after (before ++ [l]) fuel (loop_a dated fuel bs f fo false 0)) as FS.
+      rewrite <- SPLIT in FS. specialize (FS W).
+      assert (FU2 : (length after < fuel)%nat) by lia.
+      specialize (FS FU2). cbv zeta in FS. rewrite CF in FS. fold E1 in FS.
+      specialize (FS LA). unfold find_sysline_spec in FS.
+      assert (GR : groups dated (lines f) =
+                   ((before ++ [l]) ++ fst (groups dated after), snd (groups dated after))).
+      { rewrite SPLIT. apply groups_undated_app. exact UN. }
+      rewrite GR in *. cbn [fst snd] in *.
+      destruct (snd (groups dated after)) as [|g gs] eqn:G.
+      + rewrite FS. reflexivity.
+      + destruct FS as (sl & R & SR). cbv zeta in R, SR. rewrite R.
+        rewrite concat_app_len. fold E1.
+        rewrite pick_group_first.
+        * apply sysline_repr_obs; [exact SR|].
+          destruct g as [t gl]. destruct (groups_decomp after t gl gs G) as (l0 & r & _ & _ & E3 & _).
+          subst gl. discriminate.
+        * destruct g as [t gl]. destruct (groups_decomp after t gl gs G) as (l0 & r & _ & _ & E3 & _).
+          assert (0 < lenN (group_bytes (t, gl))).
+          { subst gl. unfold group_bytes. cbn [snd concat]. rewrite lenN_app.
+            assert (0 < lenN l0); [|lia].
+            apply (wf_lines_pos _ W). rewrite SPLIT.
+            apply in_or_app. right.
+            destruct (groups_decomp after t (l0 :: fst (groups dated r)) gs G) as (l1 & r1 & EA & _ & EG & _).
+            inversion EG; subst. rewrite EA. apply in_or_app. right. left. reflexivity. }
+          lia.
+  Qed.
+
+  (* ---------------------------------------------------------------- observations *)
 
   Lemma sls_repr_obs bs f sls b gs : sls_repr bs f sls b gs -> map (obs_sysline bs f) sls = gs.
   Proof.
@@ -701,16 +969,6 @@ Section Dated.
     rewrite R. cbn [app obs_stream]. f_equal. eapply sls_repr_obs. exact SR.
   Qed.
 
-  (* the concatenated groups are the file from its first dated line *)
-  Lemma groups_concat ls :
-    concat (fst (groups dated ls)) ++ concat (map group_bytes (snd (groups dated ls))) = concat ls.
-  Proof.
-    induction ls as [|l r IH]; [reflexivity|].
-    rewrite groups_cons. destruct (dated l); cbn [fst snd map concat app].
-    - unfold group_bytes at 1. cbn [snd concat]. rewrite <- IH. rewrite <- app_assoc. reflexivity.
-    - rewrite <- IH. rewrite <- app_assoc. reflexivity.
-  Qed.
-
   Theorem stream_bytes_suffix (f : file) :
     stream_bytes dated f = skipnN (first_dated_offset dated f) f.
   Proof.
@@ -720,4 +978,31 @@ Section Dated.
     set (s := concat (map group_bytes (snd (groups dated (lines f))))) in *.
     clearbody u s. subst f. rewrite skipnN_app_len. reflexivity.
   Qed.
+
+  Theorem printed_bytes (f : file) :
+    let s := skipnN (first_dated_offset dated f) f in
+    printed dated f = match s with [] => [] | _ => if ends_with_nl s then s else s ++ [NL] end.
+  Proof. cbv zeta. unfold printed. rewrite stream_bytes_suffix. reflexivity. Qed.
+
+  (* C12 core: nothing a caller observes depends on the block size *)
+  Theorem reader_core_bs_independent bs1 bs2 (f : file) : 0 < bs1 -> 0 < bs2 ->
+    (forall fo, obs_line bs1 f (find_line_m bs1 f fo) = obs_line bs2 f (find_line_m bs2 f fo)) /\
+    (forall fo, obs_find_sysline bs1 f (find_sysline_m dated bs1 f fo) =
+                obs_find_sysline bs2 f (find_sysline_m dated bs2 f fo)) /\
+    obs_stream bs1 f (stream_m dated bs1 f) = obs_stream bs2 f (stream_m dated bs2 f).
+  Proof.
+    intros H1 H2. split; [|split].
+    - intro fo. rewrite !find_line_spec by assumption. reflexivity.
+    - intro fo. rewrite !find_sysline_correct by assumption. reflexivity.
+    - rewrite !stream_groups by assumption. reflexivity.
+  Qed.
 End Dated.
+
+(* the hypotheses are satisfiable, the statements are not vacuous *)
+Example stream_example :
+  let dated := fun l : list N => match l with 50 :: _ => Some 7%Z | _ => None end in
+  obs_stream 3 [120; 10; 50; 48; 10; 32; 121; 10; 50; 49]
+             (stream_m dated 3 [120; 10; 50; 48; 10; 32; 121; 10; 50; 49])
+  = Some [(7%Z, [[50; 48; 10]; [32; 121; 10]]); (7%Z, [[50; 49]])].
+Proof. vm_compute. reflexivity. Qed.
+
